@@ -53,6 +53,23 @@ def udpclHandler : Handler := fun op j =>
         ("port", jnat q.2.port), ("len", jnat q.2.length), ("hex", jhex q.2.data)])),
       ("pending", jnat s.frags.length),
       ("outcomes", jarr (outs.reverse.map Json.str))])
+  | "udpcl.txrun" => do
+    -- the TX queue of one agent: [{id, data}] → per transfer the datagrams and the finished result
+    let mtu := getNat? j "mtu"
+    let items ← getArr? j "items"
+    let items ← items.toList.mapM fun it => do
+      let i ← getNat? it "id"
+      let d ← getHex? it "data"
+      some (i, d)
+    some (jobj [("items", jarr (items.map fun t =>
+      let evs := Udpcl.txItem mtu t
+      jobj [("id", jnat t.1),
+        ("dgrams", jarr (evs.filterMap fun e => match e with
+          | .dgram d => some (jhex d)
+          | _ => none)),
+        ("finished", jarr (evs.filterMap fun e => match e with
+          | .finished i l r => some (jarr [Json.str (toString i), jnat l, Json.str r])
+          | _ => none))]))])
   | "udpcl.hist" => do
     -- a D-Bus visible history: {"addr","port","hex"} = datagram, {"pop": id} = recv_bundle_pop_data
     let rej := (getBool? j "reject").getD false
